@@ -103,17 +103,41 @@ def r11_7(ctx, rep):
                       "parse_chunk_file_name strips (a miss is an error, not a skip), the parser's required length equals the writer's padded "
                       "width W plus its (W-1)/G separators, and W >= 20 digits so no u64 offset overflows the width")
     B = ctx.facts.bodies
-    wk = [k for k in B if re.search(r"config::Config::chunk_file_name$", k)]
+
+    def local_callees(b):
+        return [blk["term"]["callee"].get("rkey") or blk["term"]["callee"].get("key") for blk in b["blocks"]
+                if blk["term"]["k"] == "call" and (blk["term"]["callee"].get("rlocal") or blk["term"]["callee"].get("local"))
+                and not blk["term"].get("exp")]
+
+    def cone(root):
+        seen_, work_ = [], [root]
+        while work_:
+            k_ = work_.pop()
+            if k_ in seen_ or k_ not in B:
+                continue
+            seen_.append(k_)
+            work_ += [x for x in local_callees(B[k_]) if x]
+            work_ += [c_ for c_ in B if c_.startswith(k_ + "::{closure")]
+        return seen_
+    # anchors are the two PUBLIC functions: Config::chunk_path (writes a name) and Config::parse_chunk_file_name (reads one); the code that
+    # formats / strips may sit in them or in private helpers below them (wherever a refactoring puts it)
+    pathk = [k for k in B if re.search(r"config::Config::chunk_path$", k)]
     pk = [k for k in B if re.search(r"config::Config::parse_chunk_file_name$", k)]
-    if not rep.expect("R11.7", "writer and parser of the chunk file name", len(wk) == 1 and len(pk) == 1, "found %d/%d" % (len(wk), len(pk))):
+    if not rep.expect("R11.7", "Config::chunk_path and Config::parse_chunk_file_name", len(pathk) == 1 and len(pk) == 1, "found %d/%d" % (len(pathk), len(pk))):
         return
-    w, p = B[wk[0]], B[pk[0]]
-    tpl = [_fmt_template(o["v"]) for o, _s in _own_consts(w, lambda o, s: re.match(r"&\[u8; \d+\]$", o.get("ty", "")))]
-    tpl = [t for t in tpl if t]
-    if not rep.expect("R11.7", "writer's format template", len(tpl) == 1 and len(tpl[0]) == 3 and tpl[0][1] == ("ARG",)
-                      and isinstance(tpl[0][0], str) and isinstance(tpl[0][2], str),
-                      "expected `<prefix>{}<suffix>`, found %s" % (tpl,), where="%s:%s" % (w["file"], w["line"])):
+    w = None
+    tpl = []
+    for k_ in cone(pathk[0]):
+        tp = [_fmt_template(o["v"]) for o, _s in _own_consts(B[k_], lambda o, s_: re.match(r"&\[u8; \d+\]$", o.get("ty", "")))]
+        tp = [t_ for t_ in tp if t_ and len(t_) == 3 and t_[1] == ("ARG",) and isinstance(t_[0], str) and isinstance(t_[2], str)]
+        if tp:
+            w, tpl = B[k_], tp
+            break
+    if not rep.expect("R11.7", "writer's format template", w is not None and len(tpl) == 1,
+                      "no `<prefix>{}<suffix>` template found under Config::chunk_path", where="%s:%s" % (B[pathk[0]]["file"], B[pathk[0]]["line"])):
         return
+    p_cone = [B[k_] for k_ in cone(pk[0])]
+    p = B[pk[0]]
     prefix, suffix = tpl[0][0], tpl[0][2]
     # the padded-number formatter: the unique crate-local callee of the writer, followed down to the constant width and the group size
     def local_callees(b):
@@ -134,7 +158,7 @@ def r11_7(ctx, rep):
         work += [x for x in local_callees(b) if x]
         work += [c for c in B if c.startswith(k + "::{closure")]
     strip = {}
-    for blk in p["blocks"]:
+    for blk in [blk_ for pb in p_cone for blk_ in pb["blocks"]]:
         t = blk["term"]
         if t["k"] == "call" and re.search(r"str>::strip_(suffix|prefix)$|<impl str>::strip_(suffix|prefix)$", t["callee"]["path"]):
             kind = "suffix" if "strip_suffix" in t["callee"]["path"] else "prefix"
@@ -142,8 +166,8 @@ def r11_7(ctx, rep):
             if cs:
                 import ast
                 strip.setdefault(kind, []).append(ast.literal_eval(cs[0]["v"]))
-    lens = [int(o["int"]) for o, st in _own_consts(p, lambda o, s: o.get("ty") == "usize" and "int" in o and s.get("k") == "assign"
-                                                   and s["rv"].get("op") in ("Ne", "Eq"))]
+    lens = [int(o["int"]) for pb in p_cone for o, st in _own_consts(pb, lambda o, s: o.get("ty") == "usize" and "int" in o and s.get("k") == "assign"
+                                                                     and s["rv"].get("op") in ("Ne", "Eq"))]
     where_p = "%s:%s" % (p["file"], p["line"])
     ok = True
     if strip.get("prefix") != [prefix] or strip.get("suffix") != [suffix]:
